@@ -314,7 +314,7 @@ PREFIXES = [b"", b"--- a/file\n+++ b/file\n@@ -1 +1 @@\n", b"x\n", b"\n", b"keep
 
 LONG_SHAPES = ["late", "end", "end-unterminated", "unterminated-straddle", "unterminated-nomarker",
                "start", "middle", "nomarker-then-markers", "exact", "exact-marker-end", "double-late",
-               "nearmiss", "two-long-a", "two-long-b", "both-sides", "crlf-late"]
+               "nearmiss", "two-long-a", "two-long-b", "both-sides", "crlf-late", "kept-sandwich"]
 
 
 def p_long(r, b, shape, k=0, pre=0, mode="line"):
@@ -371,6 +371,8 @@ def p_long(r, b, shape, k=0, pre=0, mode="line"):
         body = fill(r, b + x) + MARK + fill(r, t) + b"\n" + fill(r, b + z) + b"\nend\n"
     elif shape == "two-long-b":      # long plain line, then a long marker line
         body = fill(r, b + z) + b"\n" + fill(r, b + x) + MARK + fill(r, t) + b"\nend\n"
+    elif shape == "kept-sandwich":   # short and long kept lines alternate: order of the kept bytes
+        body = b"first\n" + fill(r, b + x) + b"\nmiddle\n" + fill(r, b + z) + b"\nlast\n"
     elif shape == "both-sides":      # marker early and again late in the same line
         body = fill(r, z) + MARK + fill(r, b + x) + MARK + fill(r, t) + b"\nkept\n"
     elif shape == "crlf-late":
@@ -475,6 +477,10 @@ def long_lines(r, seed, tier):
         for k in ks:
             add(b, "straddle", k=k, pre=(k + seed) % 5)
         add(b, "late", pre=(seed + 1) % 5)
+        # long lines that are kept, behind and between short kept lines (a
+        # rung of the ladder for the kept bytes, not only for the marker search)
+        add(b, "kept-sandwich", pre=1 + (seed + b // 262144) % 4)
+        add(b, ["nomarker-then-markers", "nearmiss", "exact", "two-long-b"][(seed + b // 262144) % 4], pre=1 + seed % 4)
         if thorough:
             add(b, "end-unterminated")
             add(b, "nomarker-then-markers")
@@ -484,6 +490,7 @@ def long_lines(r, seed, tier):
     # patch" shows one rung above it and nowhere below)
     for b in ([4194304, 16777216] if thorough else [4194304]):
         add(b, "late", pre=seed % 5)
+        add(b, "kept-sandwich", pre=1 + seed % 4)
     # very many short lines
     for i, n in enumerate([300, 1100, 4200, 9000, 33000, 70000] + ([140000, 300000] if thorough else [])):
         out.append(("patch-many", p_many(r, n, (i + seed) % 3)))
